@@ -36,3 +36,20 @@ func All() []*G {
 	}
 	return pairingGroups(out, PairingSuites())
 }
+
+// Parameters of a residue group with cofactor 84 (P = 84*Q + 1), generated for
+// /verif: the shipped QR512 suite is a safe-prime group (cofactor 2), where
+// "quadratic residue" and "in the order-Q subgroup" coincide.
+var (
+	ResR84P = bigs("9516438124321917477454416659838875129485329984311068829386693")
+	ResR84Q = bigs("113290930051451398541124007855224703922444404575131771778413")
+	ResR84G = bigs("19342813113834066795298816")
+)
+
+// Extra returns group instances beyond the 20 the library registers: a residue
+// group with a large cofactor built through the public ResidueGroup.SetParams.
+func Extra() []*G {
+	rg := new(p256.ResidueGroup)
+	rg.SetParams(ResR84P, ResR84Q, bigs("84"), ResR84G)
+	return []*G{{Name: "residue-r84", Group: rg, MulNil: true, Base: true, Pick: true, Embed: true, Family: "residue-r84", Order: ResR84Q}}
+}
